@@ -28,10 +28,21 @@ def obs_tables(p, mothers):
         modes = p.list_decay_modes(m)
         alld = sorted({d for mode in modes for d in mode})
         entries = p.build_decay_chains(m, stable_particles=alld)[m]
+        # model, parameters and branching fraction of each line by a route that does not go through chain building (the
+        # module-level readers on the line trees); falls back to the chain entries if that route is not there
+        indep = None
+        try:
+            from decaylanguage.dec import dec as _dec
+            trees = p._find_decay_modes(m)
+            indep = [(_dec.get_branching_fraction(t), _dec.get_model_name(t), _dec.get_model_parameters(t)) for t in trees]
+            if len(indep) != len(entries):
+                indep = None
+        except Exception:  # noqa: BLE001
+            indep = None
         lines = []
         for j, e in enumerate(entries):
-            mp = e["model_params"]
-            lines.append({"bf": repr(e["bf"]), "ds": list(modes[j]), "mn": e["model"],
+            bf, mn, mp = indep[j] if indep else (e["bf"], e["model"], e["model_params"])
+            lines.append({"bf": repr(bf), "ds": list(modes[j]), "mn": mn,
                           "ps": [] if mp in ("", []) else [tok(x) for x in mp]})
         out.append({"m": m, "lines": lines})
     return out
